@@ -163,3 +163,51 @@ impl ReceiveStream {
         should_wake
     }
 }
+
+// ---- ReceiveStream::init_reset (RESET_STREAM received / internal reset): the `match self.state { .. }` gate ---------------
+// C04: "a RESET_STREAM whose final size contradicts the established one is FINAL_SIZE_ERROR, one that exceeds the
+// advertised window is FLOW_CONTROL_ERROR, and a rejected frame leaves the stream untouched"; C01: a reset that arrives
+// after the whole stream was received (or read) is ignored, so data already complete is still delivered.
+pub enum ResetStreamState { Receiving, DataRead, Reset(u64), Stopping { missing: u64 } }
+pub struct OptTagX { pub t: Option<u8> }
+pub struct ResetFlowControllerX { pub limit: Ghost<int> }
+impl ResetFlowControllerX {
+    #[verifier::external_body]
+    pub fn acquire_window_up_to(&mut self, data_end: VarIntX, frame_type: Option<u8>) -> (r: Result<(), TransportError>)
+        ensures r is Err <==> data_end.v as int > old(self).limit@, r is Err ==> r->Err_0.code == 0x3, final(self).limit@ == old(self).limit@,
+    { unimplemented!() }
+}
+pub fn u64_from_varint(v: VarIntX) -> (r: u64) ensures r == v.v { v.v }
+impl TransportError { pub const FINAL_SIZE_ERROR: TransportError = TransportError { code: 0x6 }; }
+impl From<u8> for FrameTypeX { fn from(v: u8) -> (r: FrameTypeX) { FrameTypeX { v: v as u64 } } }
+impl vstd::std_specs::convert::FromSpecImpl<u8> for FrameTypeX {
+    open spec fn obeys_from_spec() -> bool { false }
+    open spec fn from_spec(v: u8) -> FrameTypeX { FrameTypeX { v: v as u64 } }
+}
+
+pub struct ReceiveStreamR { pub state: ResetStreamState, pub receive_buffer: ReceiveBufferX, pub flow_controller: ResetFlowControllerX, pub proceed: Ghost<bool> }
+impl ReceiveStreamR {
+    fn init_reset_gate(&mut self, actual_size: Option<VarIntX>, frame_tag: Option<u8>) -> (ret: Result<(), TransportError>)
+        requires old(self).receive_buffer.inv(), !old(self).proceed@,
+        ensures
+            // nothing is reset unless control reaches the reset code, and it never does for a rejected frame
+            final(self).receive_buffer == old(self).receive_buffer,
+            ret is Err ==> !final(self).proceed@,
+            // already reset or completely read: ignored
+            (old(self).state is Reset || old(self).state is DataRead) ==> ret is Ok && !final(self).proceed@,
+            // established final size contradicted => FINAL_SIZE_ERROR
+            old(self).state is Receiving && old(self).receive_buffer.fin@ is Some && actual_size is Some
+                && actual_size->Some_0.v as int != old(self).receive_buffer.fin@->Some_0 ==> ret is Err && ret->Err_0.code == 0x6,
+            // the whole stream was already received: the reset is ignored (data stays deliverable)
+            old(self).state is Receiving && old(self).receive_buffer.fin@ is Some && old(self).receive_buffer.received@ == old(self).receive_buffer.fin@->Some_0
+                && (actual_size is None || actual_size->Some_0.v as int == old(self).receive_buffer.fin@->Some_0) ==> ret is Ok && !final(self).proceed@,
+            // final size unknown: the announced final size must fit the advertised window
+            (old(self).state is Stopping || (old(self).state is Receiving && old(self).receive_buffer.fin@ is None)) && actual_size is Some
+                && actual_size->Some_0.v as int > old(self).flow_controller.limit@ ==> ret is Err && ret->Err_0.code == 0x3,
+            ret is Err ==> (ret->Err_0.code == 0x6 || ret->Err_0.code == 0x3),
+    {
+//@ splice-stmts quic/s2n-quic-transport/src/stream/receive_stream.rs "ReceiveStream" init_reset "from=match self.state" "subst=ReceiveStreamState::=>ResetStreamState::@@Into::<u64>::into(actual_size)=>u64_from_varint(actual_size)@@?transport::Error=>TransportError"
+        proof { self.proceed = Ghost(true); }
+        Ok(())
+    }
+}
